@@ -116,8 +116,10 @@ PROPS = {
     'C19': {
         'lean': ['Purr.Props.C19'],
         'suites': [
-            {'name': 'depth', 'fields': ['V', 'D'], 'nontrivial': lambda rq, resp: True},
-            {'name': 'read', 'fields': ['V', 'D'], 'nontrivial': nontrivial_read},
+            # D (live read_smiles activations, the hook) is one-sided: C19.depth_le_nesting bounds the MODEL's count, so an
+            # implementation whose count is not above the model's has the property; only a count above the model's is a disagreement
+            {'name': 'depth', 'fields': ['V', 'D'], 'le_fields': ['D'], 'nontrivial': lambda rq, resp: True},
+            {'name': 'read', 'fields': ['V', 'D'], 'le_fields': ['D'], 'nontrivial': nontrivial_read},
         ],
         'soak': {'quick': [('chain', 200000), ('dots', 200000), ('branches', 100000), ('ringlist', 200000), ('ringchain', 290),
                            ('branchchain', 300000), ('macrocycle', 300000), ('comb', 200000), ('singlechain', 300000), ('dirchain', 300000),
@@ -127,7 +129,7 @@ PROPS = {
                               ('trace:branchchain', 1000000), ('trace:chain', 1000000), ('trace:macrocycle', 1000000), ('trace:dots', 1000000), ('trace:branches', 500000)]},
         'rule': 'depth: six size families with constant nesting (chain, dot list, branches on one atom, dot-separated rings, ring chain, ring digit '
                 'list) at 1..5000 (thorough 12000) atoms and two nested families up to depth 200: the activation counter of the hook is compared '
-                'with the model depth on every string; read: the same comparison on the S-read strings; soak: read -> build -> walk -> write -> '
+                'with the model depth on every string (above the model = disagreement, below = reported only); read: the same comparison on the S-read strings; soak: read -> build -> walk -> write -> '
                 're-read of each family at 10^5..10^6 atoms in a child process, in the main thread and in a 2 MiB thread, exit status observed',
         'assumptions': ASSUME_COMMON + ['frame size per activation is a measured constant, not part of the theorem'],
     },
